@@ -124,7 +124,13 @@ func c10Exec(kind string, k int, in c10Input, rep *Report) (viol, detail string)
 	canon := c10Canonical()
 	res := &SeqResult{}
 	if announcesHuge(in.Segs) {
+		if hugeFound() {
+			return "", ""
+		}
 		defer hugeLock()()
+		if hugeFound() {
+			return "", ""
+		}
 	}
 	var m0, m1 runtime.MemStats
 	runtime.ReadMemStats(&m0)
@@ -181,6 +187,7 @@ func c10Exec(kind string, k int, in c10Input, rep *Report) (viol, detail string)
 		sent += len(sg)
 	}
 	if grown := m1.TotalAlloc - m0.TotalAlloc; grown > 256<<20+64*uint64(sent) {
+		hugeSetFound()
 		return "memory-reserved-by-announced-length", fmt.Sprintf("%d bytes of client input made the gateway allocate %d MiB", sent, grown>>20)
 	}
 	for _, p := range x.Panics() {
